@@ -1,2 +1,22 @@
-(* placeholder until the theorems are integrated *)
-From SE Require Import Spec.RelaySpec.
+(* C17 - The relay forwards every line once, intact, in packets within the limit.
+   Model: Model/Relay.v (pkg/relay/relay.go after the relay fix).  Statements: Spec/RelaySpec.v,
+   for all packet lengths, line sequences, tick placements and send results. *)
+From SE Require Import Spec.RelaySpec Proofs.RelayProofs.
+
+Theorem C17_stream : stmt_relay_stream.            Proof. exact relay_stream_ok. Qed.
+Print Assumptions C17_stream.
+Theorem C17_no_split : stmt_relay_no_split.        Proof. exact relay_no_split_ok. Qed.
+Print Assumptions C17_no_split.
+Theorem C17_packet_bound : stmt_relay_packet_bound. Proof. exact relay_packet_bound_ok. Qed.
+Print Assumptions C17_packet_bound.
+Theorem C17_tick_drains : stmt_relay_tick_drains.  Proof. exact relay_tick_drains_ok. Qed.
+Print Assumptions C17_tick_drains.
+Theorem C17_line_cases : stmt_relay_line_cases.    Proof. exact relay_line_cases_ok. Qed.
+Print Assumptions C17_line_cases.
+Theorem C17_never_stuck : stmt_relay_never_stuck.  Proof. exact relay_never_stuck_ok. Qed.
+Print Assumptions C17_never_stuck.
+
+Example C17_example :
+  r_sent (rrun (new_relay 6) [RLine [x61;x62]; RRecv true; RLine [x63;x64]; RRecv true; RLine [x65]; RRecv true; RTick true])
+  = [[x61;x62;x0a;x63;x64;x0a]; [x65;x0a]].
+Proof. vm_compute. reflexivity. Qed.
